@@ -105,6 +105,51 @@ theorem C04_situation_cost (ph : String) (p : Priority) (cs : List Clause) (para
       simp only [k]
   · rw [sumWeights_const _ k (fun x hx => by obtain ⟨t, _, rfl⟩ := List.mem_map.mp hx; rfl), List.length_map]
 
+theorem sumWeights_scale (k : Int) (P : List (Int × List Val)) :
+    sumWeights (P.map (fun x => (k * x.1, x.2))) = k * sumWeights P := by
+  unfold sumWeights
+  have gen : ∀ (P : List (Int × List Val)) (a : Int),
+      ((P.map (fun x => (k * x.1, x.2))).map Prod.fst).foldl (· + ·) (k * a) = k * (P.map Prod.fst).foldl (· + ·) a := by
+    intro P
+    induction P with
+    | nil => intro a; rfl
+    | cons x xs ih =>
+      intro a
+      simp only [List.map_cons, List.foldl_cons]
+      rw [← Int.mul_add]
+      exact ih _
+  have := gen P 0
+  simpa using this
+
+/-- a variable preference costs, at its level, the sum (with the direction's sign) of the variable's value over the distinct
+(value, parameter tuple) pairs for which the conditions hold -/
+theorem C04_variable_cost (ph : String) (p : Priority) (v : Term) (cs : List Clause) (params : List Term)
+    (M : Interp) (P : List (Int × List Val)) (hnd : P.Nodup)
+    (hP : ∀ x, x ∈ P ↔ ∃ e, (∀ c ∈ cs, c.holds M e) ∧ ∃ k, v.eval e = .num k ∧ x = (k, params.map (Term.eval e))) :
+    CostAt [(PrefSentence.varOpt ph p v cs params).weak] M p.level
+      ((if Generated.prefWeightNegated (dirOf ph) then -1 else 1) * sumWeights P) := by
+  let s : Int := if Generated.prefWeightNegated (dirOf ph) then -1 else 1
+  have hs : ∀ a b : Int, s * a = s * b → a = b := by
+    intro a b h
+    simp only [s] at h
+    split at h <;> omega
+  refine ⟨P.map (fun x => (s * x.1, x.2)), ?_, fun x => ?_, (sumWeights_scale s P).symm ▸ rfl⟩
+  · refine List.Pairwise.map _ (fun a b hab h => hab ?_) hnd
+    have h1 : s * a.1 = s * b.1 := (Prod.mk.injEq _ _ _ _ ▸ h).1
+    have h2 : a.2 = b.2 := (Prod.mk.injEq _ _ _ _ ▸ h).2
+    exact Prod.ext (hs _ _ h1) h2
+  · simp only [List.mem_map, levelTuple, PrefSentence.weak, List.mem_singleton, exists_eq_left, true_and, Weak.tupleAt]
+    constructor
+    · rintro ⟨y, hy, rfl⟩
+      obtain ⟨e, hc, k, hk, rfl⟩ := (hP y).mp hy
+      refine ⟨e, ⟨(litsOf_holds M e cs).mpr hc, by simp [Weak.asRule]⟩, k, hk, ?_⟩
+      simp only [s]
+      split <;> simp
+    · rintro ⟨e, ⟨hb, _⟩, k, hk, rfl⟩
+      refine ⟨(k, params.map (Term.eval e)), (hP _).mpr ⟨e, (litsOf_holds M e cs).mp hb, k, hk, rfl⟩, ?_⟩
+      simp only [s]
+      split <;> simp
+
 /-- lexicographic priority: an optimal answer set is cheapest at the highest level among all answer sets -/
 theorem C04_highest_level_first (P : Program) (ws : List Weak) (M M' : Interp) (l : Nat) (c c' : Int)
     (hopt : Optimal P ws M) (hl : ∀ w ∈ ws, w.level ≤ l) (hc : CostAt ws M l c) (hM' : Stable P M') (hc' : CostAt ws M' l c') :
